@@ -498,6 +498,7 @@ class World:
         P.set(S, 'next_job_batch', released)
         self.cause = set()       # (tag, target) with a reason to run: requested or an input reported new
         self.flying = set()      # released and not yet answered (the harness's own count)
+        self.handed = set()      # task message written to a worker and not yet answered
         self.upstream = {}
         for i, a in enumerate(algs):
             up = set()
@@ -615,7 +616,19 @@ class World:
             hand = F.Hand(ipv4('sim', 0))
             hand.transport = _Wire(self.tasks)
             F._workers.append(hand)  # pylint: disable=protected-access
+        n0 = len(self.tasks)
         F.dispatch()
+        # C03: a released unit is handed to at most one worker
+        for m in self.tasks[n0:]:
+            unit = (m.jobid, m.target or '__all__')
+            if unit in self.handed:
+                self.flag('C03', 'e2e-handed-twice',
+                          f'a second task message for {unit[0]}[{unit[1]}] (run {m.runid}) was written to a worker '
+                          f'while the first one is still being executed')
+            if unit not in self.flying:
+                self.flag('C03', 'e2e-message-without-release',
+                          f'a task message for {unit[0]}[{unit[1]}] was written although the unit was not released')
+            self.handed.add(unit)
         self.note(('disp',))
 
     def work(self, m):
@@ -648,6 +661,7 @@ class World:
             hand.transport = _Wire([])
             hand.dataReceived(raw)
         self.flying.discard(unit)
+        self.handed.discard(unit)
         # C03: the result is applied exactly once: one history entry for the unit, and it is no longer executing
         mine = [e for e in self.chronicle[n_hist:] if e['task'] == m.jobid and e['target'] == unit[1]]
         if raw and len(mine) != 1:
